@@ -3,11 +3,11 @@
 import json, subprocess
 
 HOOK_COMMITS = ["c13a16c", "6375c04", "8c58cb6"]
-FIX_COMMITS = ["5745400", "ae98e56", "dcffde2", "7418ea5", "efb55bc", "see git -C /repo log --grep ^fix:"]
+FIX_COMMITS = ["5745400", "ae98e56", "dcffde2", "7418ea5", "a157fe0", "efb55bc", "6ce14e1", "c329518"]
 
 WIRE_NOTE = ("Trusted: the simulator itself (executor, pipe, model, oracle); AsyncTransport implementations are "
              "reliable and ordered; value codec/converter for payload equality; broker built with features "
-             "statistics+verif-hooks and without introspection. Sampling, not enumeration: a clean batch is "
+             "statistics+introspection+verif-hooks. Sampling, not enumeration: a clean batch is "
              "evidence, not proof. Bounds: <=4 connections (+1 probe), <=50 operations per connection, UUID pools of 3.")
 
 def wire(pid, category, text, ref, technique):
@@ -33,7 +33,7 @@ CHECKS = [
          "Same harness, workload biased to create/destroy of objects and services over 3x3 UUID pools with own/foreign/stale/never-issued cookies, queries and disconnects; registry state (both indexes, ownership, containment) equals the model after every broker step, every reply equals the model's, cookies are never reused.",
          "DESIGN.md section 5 C03", SIM + "lock-step refinement check against a reference model of the registry"),
     wire("C04", "exploration",
-         "Same harness, workload biased to subscribe/unsubscribe/subscribe-all/emit/destroy/disconnect; fan-out set, 0<->1 notifications to the owner (also on subscriber removal) and ServiceDestroyed notifications must equal the model; both subscription mirrors in the broker must agree with it after every step.",
+         "Same harness, workload biased to subscribe/unsubscribe/subscribe-all/emit/destroy/disconnect; fan-out set, 0<->1 notifications to the owner (also on subscriber removal) and ServiceDestroyed notifications must equal the model; both subscription mirrors in the broker must agree with it after every step. Every 4th run is an API-level run with real clients: EventRound programs (1-3 proxies per task with random subscribe/subscribe-all/unsubscribe histories, owner emits a bracketed burst of uniquely numbered events) whose proxies must receive exactly the events their final subscription state implies, in order (covers the owner client's emit filter and the per-client proxy fan-out).",
          "DESIGN.md section 5 C04", SIM + "lock-step refinement check against a reference model of subscriptions"),
     wire("C05", "exploration",
          "Part A (broker credit arithmetic and end state machine): create/claim/close/send-item/add-capacity/disconnect with capacities 0..u32::MAX, senders that respect or overrun their credit; credit announced to the sender is adopted from the broker and checked against invariants (announced<=granted, no stall, cut-off only on overrun, overflow closes only the receiver), item streams and notifications equal the model. Part B (every 4th run): real Sender/Receiver sessions between real clients on unbounded/bounded transports: the consumer must see exactly the produced sequence (a prefix if somebody closed early), producer and consumer must not deadlock (blocked-at-quiescence oracle), broker model in lock step.",
@@ -42,13 +42,13 @@ CHECKS = [
          "Mixed bus activity with every connection ended at a random script position in one of five ways (clean Shutdown, transport error, EOF, shutdown_connection, Connection task dropped with requests still queued), plus broker shutdown / idle shutdown teardown in every run; after every broker step the internal snapshot is cross-reference consistent and equal to the model, gauges equal true counts, peers got each notification once, and at the end nothing is left and Broker::run / Connection::run have returned.",
          "DESIGN.md section 5 C09", SIM + "fault points placed in generated histories, state snapshot (hook H3) compared with a reference model after every step"),
     wire("C10", "exploration",
-         "Listener create/destroy, all six filter shapes over the UUID pools, start/stop with the three scopes, object/service churn and disconnects; the model evaluates the plain filter predicate (written independently of the repository's) so the broker's incremental fast paths are checked for every add/remove history; tagged current events + finished marker and per-connection de-duplicated new events must equal the model.",
+         "Listener create/destroy, all six filter shapes over the UUID pools, start/stop with the three scopes, object/service churn and disconnects; the model evaluates the plain filter predicate (written independently of the repository's) so the broker's incremental fast paths are checked for every add/remove history; tagged current events + finished marker and per-connection de-duplicated new events must equal the model. Every 4th run is an API-level run with real clients: ListenerRound programs (real BusListener objects with private UUIDs, started New/All, optional sibling listener of the same connection started Current and restarted) whose received event sequences are compared exactly.",
          "DESIGN.md section 5 C10", SIM + "lock-step refinement check against a reference model of bus listeners"),
     wire("C11", "exploration",
          "1-2 abusing connections send arbitrary well-formed messages (all 63 kinds incl. wrong-direction ones, live/stale/foreign/never-issued cookies and serials, garbage payloads) next to conformant connections and a late-joining probe; no panic (debug assertions on), quiescence within the step cap, snapshot consistent after every step, conformant connections' whole streams equal the model's and they are not closed.",
          "DESIGN.md section 5 C11", SIM + "abuse generator plus whole-stream model comparison for bystanders"),
     wire("C12", "exploration",
-         "Handshake requests inside and outside 1.14..1.20 (legacy and new connect), every gated request kind sent below and above its gate, traffic between all version pairs with payloads of eight container shapes; handshake outcome and negotiated version by the rule in the statement, gate => connection closed, monitor on every broker->client message (no kind newer than the client's version, no 1.20 encoding to a <1.20 client via an independent byte walker), payloads equal as decoded values.",
+         "Handshake requests inside and outside 1.14..1.20 (legacy and new connect), every gated request kind sent below and above its gate, traffic between all version pairs with payloads of eight container shapes plus multi-segment byte strings and values nested at the depth limit; handshake outcome and negotiated version by the rule in the statement, gate => connection closed, monitor on every broker->client message (no kind newer than the client's version, no 1.20 encoding to a <1.20 client via an independent byte walker), payloads equal as decoded values.",
          "DESIGN.md section 5 C12", SIM + "version monitors on every delivered message plus model comparison"),
 ]
 
@@ -68,7 +68,7 @@ CHECKS.append({
 
 API_NOTE = ("Trusted: the simulator (executor, transport wrapper, program interpreter, oracles, broker model). Older client versions are "
             "emulated by clamping the minor version in the client's Connect2. Sampling, not enumeration. Bounds: 2-4 clients, 1-3 application "
-            "tasks each, 6-40 operations per task, UUID pools of 3, <=60000 executor steps per run; a poll that does not return within 60 s of "
+            "tasks each, 6-40 operations per task, UUID pools of 3, <=250000 (quick) / 1500000 (thorough) executor steps per run; a poll that does not return within 60 s of "
             "wall-clock time is reported as a hang.")
 
 def api(pid, category, text, ref, technique):
